@@ -62,6 +62,14 @@ def isZero : Spec.Expr → Bool
   | .int 0 => true
   | _ => false
 
+/-- receiver of an object method call `obj(mSel, a, …)` (opcode 58): a local, a parameter or a global; the model calls the
+    function by the receiver's NAME (`findVarName`) -/
+def mcallRecv : Spec.Expr → Option Spec.Name
+  | .var .loc v => some v
+  | .var .param v => some v
+  | .var .glob v => some v
+  | _ => none
+
 mutual
 /-- `Emb e n`: `n` is the node the model builds for `e` (any positions) -/
 def Emb : Spec.Expr → Node → Prop
@@ -76,6 +84,8 @@ def Emb : Spec.Expr → Node → Prop
   | .bin op a b, n => ∃ p x y, n = .binary (binName op) p x y ∧ Emb a x ∧ Emb b y
   | .field a, n => ∃ p x, n = .unary (S "field") p x ∧ Emb a x
   | .call f as, n => ∃ p p' wr ops, n = .callFn (.s f) p (.loadList (S "<load_list>") p' ops.reverse) true false wr .none ∧ EmbL as ops
+  | .mcall o m as, n => ∃ p p' ps rc ops nm, mcallRecv o = some nm ∧
+      n = .callFn (.s nm) p (.loadList (S "<load_list>") p' (ops.reverse ++ [.sym (.s m) ps false])) true false false rc ∧ EmbL as ops
   | .list as, n => ∃ p p' ops, n = .toList p (.loadList (S "<load_list>") p' ops.reverse) ∧ EmbL as ops
   | .plist as, n => ∃ p p' ops, n = .toDict p (.loadList (S "<load_list>") p' ops.reverse) ∧ EmbL as ops
   | .key v, n => ∃ p, n = .keyAcc p v
@@ -113,6 +123,8 @@ def EmbH (hs : List Spec.Name) : Spec.Expr → Node → Prop
   | .bin op a b, n => ∃ p x y, n = .binary (binName op) p x y ∧ EmbH hs a x ∧ EmbH hs b y
   | .field a, n => ∃ p x, n = .unary (S "field") p x ∧ EmbH hs a x
   | .call f as, n => ∃ p p' ops, n = .callFn (.s f) p (.loadList (S "<load_list>") p' ops.reverse) true false (hs.contains f) .none ∧ EmbLH hs as ops
+  | .mcall o m as, n => ∃ p p' ps rc ops nm, mcallRecv o = some nm ∧
+      n = .callFn (.s nm) p (.loadList (S "<load_list>") p' (ops.reverse ++ [.sym (.s m) ps false])) true false false rc ∧ EmbLH hs as ops
   | .list as, n => ∃ p p' ops, n = .toList p (.loadList (S "<load_list>") p' ops.reverse) ∧ EmbLH hs as ops
   | .plist as, n => ∃ p p' ops, n = .toDict p (.loadList (S "<load_list>") p' ops.reverse) ∧ EmbLH hs as ops
   | .key v, n => ∃ p, n = .keyAcc p v
@@ -145,6 +157,7 @@ theorem emb_symName' (e : Spec.Expr) (n : Node) (h : Emb e n) (hs : ∀ v, e ≠
   | bin op a b => obtain ⟨p, y, z, rfl, _⟩ := h; rfl
   | field a => obtain ⟨p, y, rfl, _⟩ := h; rfl
   | call f as => obtain ⟨p, p', wr, ops, rfl, _⟩ := h; rfl
+  | mcall o m as => obtain ⟨p, p', ps, rc, ops, nm, _, rfl, _⟩ := h; rfl
   | list as => obtain ⟨p, p', ops, rfl, _⟩ := h; rfl
   | plist as => obtain ⟨p, p', ops, rfl, _⟩ := h; rfl
   | key v => obtain ⟨p, rfl⟩ := h; rfl
@@ -188,6 +201,7 @@ theorem emb_isNone (e : Spec.Expr) (n : Node) (h : Emb e n) : n.isNone = false :
   | bin op a b => obtain ⟨p, y, z, rfl, _⟩ := h; rfl
   | field a => obtain ⟨p, y, rfl, _⟩ := h; rfl
   | call f as => obtain ⟨p, p', wr, ops, rfl, _⟩ := h; rfl
+  | mcall o m as => obtain ⟨p, p', ps, rc, ops, nm, _, rfl, _⟩ := h; rfl
   | list as => obtain ⟨p, p', ops, rfl, _⟩ := h; rfl
   | plist as => obtain ⟨p, p', ops, rfl, _⟩ := h; rfl
   | key v => obtain ⟨p, rfl⟩ := h; rfl
@@ -220,6 +234,7 @@ theorem emb_const_lit (e : Spec.Expr) (n : Node) (h : Emb e n) (hc : n.cls = .le
   | bin op a b => obtain ⟨p, y, z, rfl, _⟩ := h; simp [Node.cls] at hc
   | field a => obtain ⟨p, y, rfl, _⟩ := h; simp [Node.cls] at hc
   | call f as => obtain ⟨p, p', wr, ops, rfl, _⟩ := h; simp [Node.cls] at hc
+  | mcall o m as => obtain ⟨p, p', ps, rc, ops, nm, _, rfl, _⟩ := h; simp [Node.cls] at hc
   | list as => obtain ⟨p, p', ops, rfl, _⟩ := h; simp [Node.cls] at hc
   | plist as => obtain ⟨p, p', ops, rfl, _⟩ := h; simp [Node.cls] at hc
   | key v => obtain ⟨p, rfl⟩ := h; simp [Node.cls] at hc
@@ -253,6 +268,7 @@ theorem emb_binary_inv (e : Spec.Expr) (op : Str) (p : Int) (x y : Node) (h : Em
   | un op a => obtain ⟨p, y, h, _⟩ := h; cases h
   | field a => obtain ⟨p, y, h, _⟩ := h; cases h
   | call f as => obtain ⟨p, p', wr, ops, h, _⟩ := h; cases h
+  | mcall o m as => obtain ⟨p, p', ps, rc, ops, nm, _, h, _⟩ := h; cases h
   | list as => obtain ⟨p, p', ops, h, _⟩ := h; cases h
   | plist as => obtain ⟨p, p', ops, h, _⟩ := h; cases h
   | key v => obtain ⟨p, h⟩ := h; cases h
@@ -301,14 +317,25 @@ theorem embLv_name (lv : Spec.Expr) (l : Node) (h : EmbLv lv l) : ∃ nm, l.name
   | oprop v o => simp only [EmbLv, Emb] at h; obtain ⟨p, x, rfl, _⟩ := h; exact ⟨_, rfl⟩
   | _ => simp [EmbLv] at h
 
+/-- the image of a `put` / `delete` / `hilite` TARGET: the image of the target read as an expression, except that a global at the
+    bottom of a chunk chain (`46 n`, VariableOpcode) may be a GlobalVariable or a LocalVariable node of that name — the model decides
+    by the globals seen so far; both print the bare name -/
+def EmbTg : Spec.Expr → Node → Prop
+  | .chunk k a b d, n => ∃ p x y z, n = .strOp k.tag.toList p x y z ∧ Emb a x ∧
+      ((isZero b = true ∧ y = .none) ∨ (isZero b = false ∧ Emb b y)) ∧ EmbTg d z
+  | .var .glob v, n => ∃ p, n = .leaf .globalVar (.s v) p ∨ n = .leaf .localVar (.s v) p
+  | e, n => Emb e n
+
 /-- statements: the model's `Statement` node -/
 def EmbS : Spec.Stmt → Node → Prop
   | .set lv v, n => ∃ p q l r, n = .stmt p (.binary (S "assign") q l r) ∧ EmbLv lv l ∧ Emb v r
   | .call f as, n => ∃ p q q' wr ops, n = .stmt p (.callFn (.s f) q (.loadList (S "load_list") q' ops.reverse) true false wr .none) ∧ EmbL as ops
   | .exit, n => ∃ p q, n = .stmt p (.callFn (.s (S "exit")) q .none true false false .none)
-  | .put m v lv, n => ∃ p q l r, n = .stmt p (.spAssign q l r m.tag.toList) ∧ Emb lv l ∧ Emb v r
-  | .delete t, n => ∃ p q l, n = .stmt p (.unary (S "delete") q l) ∧ Emb t l
-  | .hilite t, n => ∃ p q l, n = .stmt p (.unary (S "hilite") q l) ∧ Emb t l
+  | .put m v lv, n => ∃ p q l r, n = .stmt p (.spAssign q l r m.tag.toList) ∧ EmbTg lv l ∧ Emb v r
+  | .delete t, n => ∃ p q l, n = .stmt p (.unary (S "delete") q l) ∧ EmbTg t l
+  | .hilite t, n => ∃ p q l, n = .stmt p (.unary (S "hilite") q l) ∧ EmbTg t l
+  | .mcall o m as, n => ∃ p q q' ps rc ops nm, mcallRecv o = some nm ∧
+      n = .stmt p (.callFn (.s nm) q (.loadList (S "load_list") q' (ops.reverse ++ [.sym (.s m) ps false])) true false false rc) ∧ EmbL as ops
   | _, _ => False
 
 def EmbSs : List Spec.Stmt → List Node → Prop
@@ -320,9 +347,11 @@ def EmbSH (hs : List Spec.Name) : Spec.Stmt → Node → Prop
   | .set lv v, n => ∃ p q l r, n = .stmt p (.binary (S "assign") q l r) ∧ EmbLv lv l ∧ EmbH hs v r
   | .call f as, n => ∃ p q q' ops, n = .stmt p (.callFn (.s f) q (.loadList (S "load_list") q' ops.reverse) true false (hs.contains f) .none) ∧ EmbLH hs as ops
   | .exit, n => ∃ p q, n = .stmt p (.callFn (.s (S "exit")) q .none true false false .none)
-  | .put m v lv, n => ∃ p q l r, n = .stmt p (.spAssign q l r m.tag.toList) ∧ Emb lv l ∧ EmbH hs v r
-  | .delete t, n => ∃ p q l, n = .stmt p (.unary (S "delete") q l) ∧ Emb t l
-  | .hilite t, n => ∃ p q l, n = .stmt p (.unary (S "hilite") q l) ∧ Emb t l
+  | .put m v lv, n => ∃ p q l r, n = .stmt p (.spAssign q l r m.tag.toList) ∧ EmbTg lv l ∧ EmbH hs v r
+  | .delete t, n => ∃ p q l, n = .stmt p (.unary (S "delete") q l) ∧ EmbTg t l
+  | .hilite t, n => ∃ p q l, n = .stmt p (.unary (S "hilite") q l) ∧ EmbTg t l
+  | .mcall o m as, n => ∃ p q q' ps rc ops nm, mcallRecv o = some nm ∧
+      n = .stmt p (.callFn (.s nm) q (.loadList (S "load_list") q' (ops.reverse ++ [.sym (.s m) ps false])) true false false rc) ∧ EmbLH hs as ops
   | _, _ => False
 
 def EmbSsH (hs : List Spec.Name) : List Spec.Stmt → List Node → Prop
@@ -364,6 +393,25 @@ def objOk : Spec.Expr → Bool
   | .var _ v => v != S "me"
   | _ => true
 
+/-- receivers of method calls: a local / parameter / global whose name is an identifier and not `sound` / `go` (the model prints a
+    call of these names in a special form) -/
+def recvOk (o : Spec.Expr) : Bool :=
+  match mcallRecv o with
+  | some nm => idOk nm && plainCallName nm
+  | none => false
+
+theorem recvOk_spec (o : Spec.Expr) (h : recvOk o = true) :
+    ∃ nm, mcallRecv o = some nm ∧ idOk nm = true ∧ plainCallName nm = true ∧ (o = .var .loc nm ∨ o = .var .param nm ∨ o = .var .glob nm) := by
+  unfold recvOk at h
+  cases o with
+  | var k v =>
+    cases k <;> simp only [mcallRecv, Bool.and_eq_true] at h
+    · exact ⟨v, rfl, h.1, h.2, Or.inl rfl⟩
+    · exact ⟨v, rfl, h.1, h.2, Or.inr (Or.inl rfl)⟩
+    · exact ⟨v, rfl, h.1, h.2, Or.inr (Or.inr rfl)⟩
+    · cases h
+  | _ => simp [mcallRecv] at h
+
 mutual
 /-- expressions of the link theorems -/
 def FragE : Spec.Expr → Bool
@@ -376,6 +424,7 @@ def FragE : Spec.Expr → Bool
   | .bin o a b => decide (o ≠ .starts) && FragE a && FragE b
   | .field a => FragE a
   | .call f as => idOk f && plainCallName f && !as.isEmpty && !gvClash f as && FragL as   -- F125: a zero-argument call prints as the bare name
+  | .mcall o m as => recvOk o && idOk m && FragL as
   | .list as => FragL as
   | .plist as => FragL as && as.length % 2 == 0
   | .key v => idOk v
@@ -409,6 +458,7 @@ def FragTg (r : Nat) : Spec.Expr → Bool
   | .chunk k a b d => decide (r < k.rank) && FragE a && !isZero a && FragE b && FragTg k.rank d
   | .field e => FragE e
   | .var .loc v => idOk v
+  | .var .glob v => decide (0 < r) && idOk v      -- only below a chunk (`lowerTarget` refuses a bare global)
   | _ => false
 
 /-- a target is an expression of the fragment (so the text / token layers treat it like any other expression) -/
@@ -420,7 +470,7 @@ theorem fragTg_fragE : ∀ (e : Spec.Expr) (r : Nat), FragTg r e = true → Frag
   | .field e, _, h => by simpa [FragTg, FragE] using h
   | .var .loc v, _, h => by simpa [FragTg, FragE] using h
   | .var .param _, _, h => by simp [FragTg] at h
-  | .var .glob _, _, h => by simp [FragTg] at h
+  | .var .glob v, _, h => by simp only [FragTg, Bool.and_eq_true] at h; simpa [FragE] using h.2
   | .var .prop _, _, h => by simp [FragTg] at h
   | .int _, _, h => by simp [FragTg] at h
   | .str _, _, h => by simp [FragTg] at h
@@ -447,15 +497,51 @@ def isVarE : Spec.Expr → Bool
   | .var _ _ => true
   | _ => false
 
+/-- the words of `go loop | next | previous` (the model's GO_WORDS: exact, lower case) -/
+def goWordX (w : Spec.Name) : Bool := w == "loop".toList || w == "next".toList || w == "previous".toList
+
+/-- a command call printed in the plain form `f a, b` -/
+def callPlain (f : Spec.Name) (as : List Spec.Expr) : Bool := idOk f && plainCallName f && !gvClash f as && FragL as
+/-- `sound <word> a, b`: the first argument is a symbol, printed bare (`sound playFile 1, "x"`, `sound stop 2`) -/
+def callSound (f : Spec.Name) (as : List Spec.Expr) : Bool :=
+  f == "sound".toList && (match as with | .sym m :: rest => idOk m && FragL rest | _ => false)
+/-- `go loop`, `go next`, `go previous` -/
+def callGo (f : Spec.Name) (as : List Spec.Expr) : Bool :=
+  f == "go".toList && (match as with | [.sym w] => goWordX w | _ => false)
+
+theorem goWordX_idOk (w : Spec.Name) (h : goWordX w = true) : idOk w = true := by
+  simp only [goWordX, Bool.or_eq_true, beq_iff_eq] at h
+  rcases h with (rfl | rfl) | rfl <;> decide
+
 /-- statements of the link theorems -/
 def FragS : Spec.Stmt → Bool
   | .set lv v => FragLv lv && FragE v
-  | .call f as => idOk f && plainCallName f && !gvClash f as && FragL as
+  | .call f as => callPlain f as || callSound f as || callGo f as
   | .exit => true
   | .put m v lv => FragE v && FragTg 0 lv && !(decide (m = .into) && isVarE lv)
   | .delete t => isChunkE t && FragTg 0 t
   | .hilite t => FragTg 0 t
+  | .mcall o m as => recvOk o && idOk m && FragL as
   | _ => false
+
+/-- the arguments of a command call of the fragment are expressions of the fragment -/
+theorem fragS_call_args (f : Spec.Name) (as : List Spec.Expr) (h : FragS (.call f as) = true) : FragL as = true := by
+  simp only [FragS, Bool.or_eq_true] at h
+  rcases h with (h | h) | h
+  · simp only [callPlain, Bool.and_eq_true] at h; exact h.2
+  · simp only [callSound, Bool.and_eq_true] at h
+    obtain ⟨_, h⟩ := h
+    split at h
+    · rename_i m rest
+      simp only [Bool.and_eq_true] at h
+      simp only [FragL, FragE, Bool.and_eq_true]; exact h
+    · cases h
+  · simp only [callGo, Bool.and_eq_true] at h
+    obtain ⟨_, h⟩ := h
+    split at h
+    · rename_i w
+      simp only [FragL, FragE, Bool.and_eq_true, and_true]; exact goWordX_idOk w h
+    · cases h
 
 def FragSs : List Spec.Stmt → Bool
   | [] => true
@@ -488,6 +574,7 @@ def FragX : Spec.Stmt → Bool
   | .put m v lv => FragS (.put m v lv)
   | .delete t => FragS (.delete t)
   | .hilite t => FragS (.hilite t)
+  | .mcall o m as => FragS (.mcall o m as)
   | .ifThen c t e => FragE c && FragXs t && FragXs e
   | .repeatWhile c b => FragE c && FragXs b
   | .repeatWith (.var .loc v) a b _ body => idOk v && FragE a && FragE b && FragXs body
@@ -528,6 +615,7 @@ def mE : Spec.Expr → Str
     else S "sprite " ++ mE a ++ S " " ++ opTxt o ++ S " " ++ mE b
   | .field a => S "field " ++ mE a
   | .call f as => f ++ S "(" ++ mArgs as ++ S ")"
+  | .mcall o m as => mE o ++ S "(" ++ m ++ (if as.isEmpty then [] else S ", " ++ mArgs as) ++ S ")"
   | .list as => S "[" ++ mArgs as ++ S "]"
   | .plist as => if as.isEmpty then S "[:]" else S "[" ++ mPairs as ++ S "]"
   | .key v => S "the " ++ v
@@ -563,15 +651,33 @@ end
 def mCond (c : Spec.Expr) : Str :=
   if Lscr.startsWith (mE c) (S "(") then Lscr.stripParens (mE c) else mE c
 
+/-- `CallFunction.generate_lingo` of a command call (no parentheses): `sound <word> …`, `go <word>`, `f a, b` -/
+def mCall (f : Spec.Name) (as : List Spec.Expr) : Str :=
+  if f = "sound".toList then
+    (match as with
+     | .sym m :: rest => S "sound " ++ m ++ S " " ++ mArgs rest
+     | _ => f ++ (if as.isEmpty then [] else S " " ++ mArgs as))
+  else if f = "go".toList then
+    (match as with
+     | [.sym w] => if goWordX w then S "go " ++ w else f ++ (if as.isEmpty then [] else S " " ++ mArgs as)
+     | _ => f ++ (if as.isEmpty then [] else S " " ++ mArgs as))
+  else f ++ (if as.isEmpty then [] else S " " ++ mArgs as)
+
+theorem mCall_plain (f : Spec.Name) (as : List Spec.Expr) (h : plainCallName f = true) :
+    mCall f as = f ++ (if as.isEmpty then [] else S " " ++ mArgs as) := by
+  simp only [plainCallName, Bool.and_eq_true, bne_iff_ne, ne_eq] at h
+  simp only [mCall, h.1, h.2, if_false]
+
 mutual
 /-- one statement (its lines) at indentation level `ind` -/
 def mS : Nat → Spec.Stmt → Str
   | ind, .set lv v => Lscr.indentOf ind ++ S "set " ++ mE lv ++ S " = " ++ mE v ++ S "\n"
-  | ind, .call f as => Lscr.indentOf ind ++ f ++ (if as.isEmpty then [] else S " " ++ mArgs as) ++ S "\n"
+  | ind, .call f as => Lscr.indentOf ind ++ mCall f as ++ S "\n"
   | ind, .exit => Lscr.indentOf ind ++ S "exit\n"
   | ind, .put m v lv => Lscr.indentOf ind ++ S "put " ++ mE v ++ S " " ++ m.tag.toList ++ S " " ++ mE lv ++ S "\n"
   | ind, .delete t => Lscr.indentOf ind ++ S "delete " ++ mE t ++ S "\n"
   | ind, .hilite t => Lscr.indentOf ind ++ S "hilite " ++ mE t ++ S "\n"
+  | ind, .mcall o m as => Lscr.indentOf ind ++ mE o ++ S " " ++ m ++ (if as.isEmpty then [] else S ", " ++ mArgs as) ++ S "\n"
   | ind, .ifThen c t e =>
     Lscr.indentOf ind ++ S "if " ++ mE c ++ S " then\n" ++ mSs (ind + 1) t
       ++ (if e.isEmpty then [] else Lscr.indentOf ind ++ S "else\n" ++ mSs (ind + 1) e) ++ Lscr.indentOf ind ++ S "end if" ++ S "\n"
